@@ -89,9 +89,9 @@ _add(PropertySpec(
 
 CE = "superrec2.compute.exhaustive"
 _add(PropertySpec(
-    "C01", files=["compute_reconciliation"],
+    "C01", files=["compute_super"],
     targets=[f"{MRC}:ReconciliationOutput.node_event", f"{MRC}:ReconciliationOutput._cost_rec", f"{MRC}:ReconciliationOutput.cost"],
-    level="exploration", standins=["reconciliation:thl-exh-vs-brute-force"],
+    level="exploration", standins=["reconciliation:thl-exh-vs-brute-force", "thl-step-functions:recurrence-contract-at-runtime"],
     technique="bounded stand-in (thl / exhaustive / generate_all against an independent brute-force enumeration and recount) "
               "plus contract-based deductive verification of the cost evaluator the solvers re-rank with; the THL table contracts are not discharged yet",
     not_decided=["Bellman contracts of _compute_thl_try_speciation / _compute_thl_try_duplication_transfer / _compute_thl_table / _decode_thl_table, "
@@ -100,7 +100,8 @@ _add(PropertySpec(
 _add(PropertySpec(
     "C05", files=["compute_super"],
     targets=[f"{DP}:Entry.update", f"{DP}:Entry.combine", f"{DP}:Entry.__iter__", f"{DP}:Entry.infos"],
-    level="proof", standins=["reconciliation:thl-exh-vs-brute-force", "labelled-solvers:all-any-vs-optimal-set"],
+    level="proof", standins=["reconciliation:thl-exh-vs-brute-force", "labelled-solvers:all-any-vs-optimal-set",
+                            "thl-step-functions:recurrence-contract-at-runtime", "spfs-entry:recurrence-contract-at-runtime", "uspfs-entry:recurrence-contract-at-runtime"],
     technique="contract-based deductive verification of the tag clauses of Entry.update / combine / __iter__ (ALL keeps exactly the optimal tags, ANY exactly one); "
               "solver-level clauses (decode completeness, result sets): bounded stand-in against the brute-force optimal set",
     not_decided=["every optimal solution is returned / exactly one under ANY at the level of the solvers (decode completeness, re-ranking): bounded stand-in only",
@@ -111,7 +112,7 @@ _add(PropertySpec(
     "C02", files=["compute_super"],
     targets=[f"{SUB}:subseq_complete", f"{SUB}:mask_from_subseq", f"{SUB}:subseq_from_mask", f"{SUB}:subseq_segment_dist",
              f"{MRC}:SuperReconciliationOutput._ordered_labeling_cost", f"{MRC}:SuperReconciliationOutput.cost"],
-    level="exploration", standins=["ordered-solvers:optimum-vs-brute-force"],
+    level="exploration", standins=["ordered-solvers:optimum-vs-brute-force", "spfs-entry:recurrence-contract-at-runtime"],
     technique="bounded stand-in (both ordered solvers against an independent optimum over every species mapping, root order and labelling) plus "
               "contract-based deductive verification of the callees the solver's correctness rests on (mask / segment-distance functions, ordered labelling cost); "
               "the SPFS table contracts are not discharged",
@@ -122,7 +123,7 @@ _add(PropertySpec(
     "C03", files=["compute_super"],
     targets=[f"{MRC}:SuperReconciliationOutput._unordered_labeling_cost", f"{MRC}:SuperReconciliationOutput.cost",
              f"{MRC}:ReconciliationOutput.node_event", f"{MRC}:ReconciliationOutput._cost_rec"],
-    level="exploration", standins=["unordered-solvers:optimum-vs-brute-force"],
+    level="exploration", standins=["unordered-solvers:optimum-vs-brute-force", "uspfs-entry:recurrence-contract-at-runtime"],
     technique="bounded stand-in (both unordered solvers against an independent optimum over every species mapping and EVERY admissible labelling, not only the canonical ones) plus "
               "contract-based deductive verification of the evaluator (unordered labelling cost, event model); the USPFS table contracts are not discharged",
     not_decided=["recurrence contract of _compute_uspfs_entry, _compute_gain_sets, _compute_lca_sets, _compute_uspfs_table, _decode_uspfs_table, _uspfs and the wrappers: NOT discharged, bounded stand-in only",
